@@ -16,7 +16,7 @@ class Transfer:
 
 
 class BlockServer:
-    def __init__(self, net, ip, port, *, szx=6, representation=b"", etag=b"v1", reduce_block1_at=None, reduce_block2_at=None, misbehave=None, misbehave_at=1, success_code=None):
+    def __init__(self, net, ip, port, *, szx=6, representation=b"", etag=b"v1", reduce_block1_at=None, reduce_block2_at=None, misbehave=None, misbehave_at=1, success_code=None, fail_block1_at=None):
         self.net = net
         self.szx = szx  # largest block size exponent the server accepts / uses
         self.representation = representation
@@ -26,6 +26,8 @@ class BlockServer:
         self.misbehave = misbehave
         self.misbehave_at = misbehave_at
         self.success_code = success_code
+        self.fail_block1_at = fail_block1_at  # (index of the Block1 request in arrival order, error code, echo the option?)
+        self.failed_block1 = 0
         self.seen = []  # every distinct request: dict(code, b1, b2, plen, t, size1)
         self.transfers = {}  # (src, path) -> Transfer
         self.completed_bodies = []  # (path, bytes) of completely reassembled request bodies
@@ -78,9 +80,15 @@ class BlockServer:
                 tr = self.transfers[tkey] = Transfer()
             if tr is None or offset != len(tr.body) or (more and len(m.payload) != size) or len(m.payload) > size:
                 return (rc.c(4, 8), [], b"incomplete")
+            idx = self.b1_count
+            if self.fail_block1_at is not None and idx == self.fail_block1_at[0]:
+                # a conforming refusal in the middle of (or at the end of) an upload, e.g. 4.13 or 4.01
+                self.b1_count += 1
+                self.failed_block1 += 1
+                self.transfers.pop(tkey, None)
+                return (self.fail_block1_at[1], [(rc.BLOCK1, rc.block_bytes(num, False, min(szx, self.szx)))] if self.fail_block1_at[2] else [], b"refused")
             tr.body += m.payload
             tr.blocks.append((num, more, szx, len(m.payload), offset))
-            idx = self.b1_count
             self.b1_count += 1
             ack_szx = min(szx, self.szx)
             if self.reduce_block1_at is not None and idx >= self.reduce_block1_at[0]:
